@@ -151,7 +151,11 @@ def check_case(case, ctx):
             ctx.count("limit_solution")
         ctx.nontrivial = True
         return
-    shared = ORToolsSolver()
+    # half of the cases: a solver with a time limit far above what is needed
+    generous = sum(len(r) for r in insts[0]["durations"]) % 2 == 0
+    shared = ORToolsSolver(max_time_in_seconds=60.0) if generous else ORToolsSolver()
+    if generous:
+        ctx.label("generous_time_limit")
     instance = sched = fresh = instance2 = None
     for k, inst in enumerate(insts):
         # a caller solving short-lived instances in a loop: nothing of the
